@@ -810,9 +810,10 @@ func forEachConfig(thorough bool, emit func(k kase)) {
 		progs = append(progs, prog{one, 0, false}, prog{one, 1, false}, prog{one, 1, true})
 		for _, f2 := range second {
 			two := []int{f1, f2}
-			progs = append(progs, prog{two, 0, false}, prog{two, 1, false}, prog{two, 2, true})
+			// {two, 1, true}: a rule fires after the would-be interruption of DetectionOnly
+			progs = append(progs, prog{two, 0, false}, prog{two, 1, false}, prog{two, 2, true}, prog{two, 1, true})
 			if thorough {
-				progs = append(progs, prog{two, 2, false}, prog{two, 1, true})
+				progs = append(progs, prog{two, 2, false})
 			}
 		}
 	}
